@@ -87,7 +87,7 @@ macro "ex_uniq" t:term "," f:term : tactic => `(tactic| (
 
 /-- The example history is well formed. -/
 theorem exOps_wf : HistWF exOps := by
-  refine ⟨exOps_resp, ?_⟩
+  refine ⟨exOps_resp, by intro t ps ds hm; simp [exOps] at hm, ?_⟩
   intro pre hpre
   have : pre = exOps.take pre.length := List.prefix_iff_eq_take.mp hpre
   rw [this]
@@ -129,7 +129,7 @@ macro "ex_uniq_r" t:term "," f:term : tactic => `(tactic| (
     all_goals first | (cases h; simp) | (obtain ⟨_, h⟩ := h; subst h; simp) | (simp at h) | omega))
 
 theorem exRestartOps_wf : HistWF exRestartOps := by
-  refine ⟨?_, ?_⟩
+  refine ⟨?_, by intro t ps ds hm; simp [exRestartOps] at hm, ?_⟩
   · intro full t ps ds hm
     simp only [exRestartOps, List.mem_cons, List.mem_nil_iff, or_false, Op.sync.injEq, reduceCtorEq, or_false] at hm
     rcases hm with ⟨_, _, rfl, rfl⟩ | ⟨_, _, rfl, rfl⟩ <;>
@@ -322,6 +322,124 @@ example : (lookupKey (loadCache fileCacheVersion (applySync init true 5 [exP 1] 
       = .ok (exP 1) (exD 1 7) ∧
     (loadCache fileCacheVersion (applySync init true 5 [exP 1] [exD 1 7]).cache).syncTime = 5 := by decide
 
+/-! ### The shape of a storage response is made by the repository's own converter -/
+
+/-- **backend_response_shape.** Whatever the backend streams — rejected devices and rejected
+profiles included — in the response `backendpb` hands to the database every device listed by a
+profile is delivered, and every device delivered is listed by a profile of the same response: the
+`listed` / `owned` half of `RespWF` is a fact about `devicesToInternal` and the receive loop, not an
+assumption on the backend. -/
+theorem backend_response_shape (ws : List WireProfile) :
+    (∀ p ∈ (respOfWire ws).1, ∀ id ∈ p.devIds, ∃ d ∈ (respOfWire ws).2, d.id = id) ∧
+    (∀ d ∈ (respOfWire ws).2, ∃ p ∈ (respOfWire ws).1, d.id ∈ p.devIds) := by
+  induction ws with
+  | nil =>
+    constructor
+    · intro p hp; cases hp
+    · intro d hd; cases hd
+  | cons w r ih =>
+    obtain ⟨ih1, ih2⟩ := ih
+    unfold respOfWire
+    by_cases hok : w.ok = true
+    · simp only [hok, if_true]
+      refine ⟨?_, ?_⟩
+      · intro p hp id hid
+        rcases List.mem_cons.mp hp with rfl | hp
+        · obtain ⟨d, hd, rfl⟩ := List.mem_map.mp hid
+          exact ⟨d, List.mem_append_left _ hd, rfl⟩
+        · obtain ⟨d, hd, he⟩ := ih1 p hp id hid
+          exact ⟨d, List.mem_append_right _ hd, he⟩
+      · intro d hd
+        rcases List.mem_append.mp hd with hd | hd
+        · exact ⟨convProfile w, List.mem_cons_self, List.mem_map.mpr ⟨d, hd, rfl⟩⟩
+        · obtain ⟨p, hp, hin⟩ := ih2 d hd
+          exact ⟨p, List.mem_cons_of_mem _ hp, hin⟩
+    · simp only [hok]
+      exact ⟨ih1, ih2⟩
+
+/-- **backend_response_wf.** So a response is well formed as soon as the backend does not send an
+accepted profile id or device id twice in one answer. -/
+theorem backend_response_wf (ws : List WireProfile)
+    (hP : ((respOfWire ws).1.map (·.id)).Nodup) (hD : ((respOfWire ws).2.map (·.id)).Nodup) :
+    RespWF (respOfWire ws).1 (respOfWire ws).2 :=
+  { nodupP := hP, nodupD := hD, listed := (backend_response_shape ws).1,
+    owned := (backend_response_shape ws).2 }
+
+/-- Non-vacuity: device 2 is rejected (its profile then lists device 1 only), profile 9 is rejected
+with its device. -/
+example : respOfWire [⟨exP 1, [⟨exD 1 7, true⟩, ⟨exD 2 0, false⟩], true⟩,
+      ⟨{ exP 1 with id := 9 }, [⟨exD 3 0, true⟩], false⟩] =
+    ([{ exP 1 with devIds := [1] }], [exD 1 7]) := by decide
+
+/-! ### A full synchronisation whose cache store fails -/
+
+/-- **store_failure_spec.** `Refresh` applies the response and advances the synchronisation point
+before it stores the cache, and returns the store's error afterwards.  So after a full
+synchronisation whose store failed the running database answers every look-up, and sends the next
+request, exactly like one whose store succeeded — while a restart finds exactly the database a
+restart *before* that synchronisation would have found (the file still is the cache that was
+written last, and the restarted database asks for the changes since that cache's time). -/
+theorem store_failure_spec (s : St) (t : Nat) (ps : List Profile) (ds : List Device) (v : Nat) :
+    let a := step s (.syncNS t ps ds)
+    let b := step s (.sync true t ps ds)
+    findByDev a = findByDev b ∧ lookupKey a = lookupKey b ∧ lookupHuman a = lookupHuman b ∧
+    (∀ full, reqTime a full = reqTime b full) ∧ step a (.restart v) = step s (.restart v) := by
+  intro a b
+  obtain ⟨c1, c2, c3⟩ := lookups_congr (s₁ := a) (s₂ := b) rfl rfl rfl rfl
+  exact ⟨c1, c2, c3, fun _ => rfl, rfl⟩
+
+/-- Non-vacuity with a failed store: the second full synchronisation (device 1 moves from IP 7 to
+IP 8) is served at once, but its store fails; the restart falls back to the first one. -/
+def exStoreFailOps : List Op :=
+  [.sync true 10 [exP 1] [exD 1 7, exD 2 0], .syncNS 12 [exP 2] [exD 1 8, exD 2 0], .byKey (.linked 8),
+   .restart 15]
+
+macro "ex_uniq_s" t:term "," f:term : tactic => `(tactic| (
+  apply uniq_small _ $t $f
+  · intro k p h
+    simp [exStoreFailOps, latest, spec, specStep, Spec.empty, restartLatest, CacheFile.usable, fileCacheVersion,
+      Latest.apply, Latest.overlay, Latest.empty, putMany, putAll, put, profItems, exP] at h
+    repeat' split at h
+    all_goals first | (cases h; rfl) | (obtain ⟨_, h⟩ := h; subst h; rfl) | (simp at h) | omega
+  · intro k d h
+    simp [exStoreFailOps, latest, spec, specStep, Spec.empty, restartLatest, CacheFile.usable, fileCacheVersion,
+      Latest.apply, Latest.overlay, Latest.empty, putMany, putAll, put, devItems, exD] at h
+    repeat' split at h
+    all_goals first | (cases h; simp) | (obtain ⟨_, h⟩ := h; subst h; simp) | (simp at h) | omega))
+
+theorem exStoreFailOps_wf : HistWF exStoreFailOps := by
+  refine ⟨?_, ?_, ?_⟩
+  · intro full t ps ds hm
+    simp only [exStoreFailOps, List.mem_cons, List.mem_nil_iff, or_false, Op.sync.injEq, reduceCtorEq, or_false] at hm
+    obtain ⟨_, _, rfl, rfl⟩ := hm
+    exact { nodupP := by decide, nodupD := by decide, listed := by decide, owned := by decide }
+  · intro t ps ds hm
+    simp only [exStoreFailOps, List.mem_cons, List.mem_nil_iff, or_false, Op.syncNS.injEq, reduceCtorEq, false_or, or_false] at hm
+    obtain ⟨_, rfl, rfl⟩ := hm
+    exact { nodupP := by decide, nodupD := by decide, listed := by decide, owned := by decide }
+  · intro pre hpre
+    have : pre = exStoreFailOps.take pre.length := List.prefix_iff_eq_take.mp hpre
+    rw [this]
+    have hcases : ∀ n, Uniq (latest (exStoreFailOps.take n)) := by
+      intro n
+      have hn : n = 0 ∨ n = 1 ∨ n = 2 ∨ n = 3 ∨ 4 ≤ n := by omega
+      rcases hn with rfl | rfl | rfl | rfl | h
+      · exact ⟨by intro id p p' h; simp [latest, spec, Spec.empty, Latest.empty] at h, by intro k p d p' d' h; simp [OwnerKey, OwnerDev, latest, spec, Spec.empty, Latest.empty] at h⟩
+      · ex_uniq_s (exP 1), (fun _ => 1)
+      · ex_uniq_s (exP 2), (fun _ => 1)
+      · ex_uniq_s (exP 2), (fun _ => 1)
+      · have : exStoreFailOps.take n = exStoreFailOps := List.take_of_length_le (by simpa [exStoreFailOps] using h)
+        rw [this]
+        ex_uniq_s (exP 1), (fun _ => 1)
+    exact hcases _
+
+example : HistWF exStoreFailOps ∧
+    (lookupKey (run (exStoreFailOps.take 2)) (.linked 8)).1 = .ok (exP 2) (exD 1 8) ∧
+    reqTime (run (exStoreFailOps.take 2)) false = 12 ∧
+    (lookupKey (run exStoreFailOps) (.linked 7)).1 = .ok (exP 1) (exD 1 7) ∧
+    (lookupKey (run exStoreFailOps) (.linked 8)).1 = .devNF ∧ reqTime (run exStoreFailOps) false = 10 :=
+  ⟨exStoreFailOps_wf, by decide, by decide, by decide, by decide, by decide⟩
+
 /-- **version_mismatch_ignored.** A cache of another version, and a cache without profiles or
 without devices, leave the started database empty: every look-up is not-found, and the next
 request carries the zero time (everything is fetched anew). -/
@@ -458,6 +576,40 @@ example : Canon { syncSec := -5, syncNsec := 7, profiles := [], devices := [exAu
   subst hd
   decide
 
+/-- **backend_values_canon.** Whatever the backend sends, the authentication settings that
+`backendpb` makes of it are canonical — the hypothesis of `filecache_roundtrip` is a property of
+the repository's own converter, not of the backend. -/
+theorem backend_values_canon (a : Option PbAuth) : CanonAuth (backendAuth a) := by
+  cases a with
+  | none => decide
+  | some x =>
+    obtain ⟨doh, pw⟩ := x
+    cases pw with
+    | unset => cases doh <;> decide
+    | bcrypt b =>
+      constructor
+      · intro h; cases h
+      · intro h; cases h
+
+/-- **backend_cache_roundtrip.** A cache whose devices came out of the `backendpb` converter (any
+wire input) is read back unchanged — no assumption on the values left.  (Rate limiter and access
+settings need no canonical form: `agd.DefaultRatelimiter` does not keep an enabled flag and
+`backendpb` maps absent or disabled settings to the global limiter / the empty access profile.) -/
+theorem backend_cache_roundtrip (c : Cache) (hd : ∀ d ∈ c.devices, ∃ w, d.auth = backendAuth w) :
+    fromPb (toPb c) = c := by
+  apply filecache_roundtrip
+  intro d hm
+  obtain ⟨w, hw⟩ := hd d hm
+  rw [hw]; exact backend_values_canon w
+
+example : backendRate (some { enabled := false, rps := 5, cidr := [(1, 24)] }) = .global ∧
+    backendRate (some { enabled := true, rps := 5, cidr := [(1, 24)] }) = .default [(1, 24)] 5 ∧
+    ratelimiterFromPb (ratelimiterToPb (backendRate (some { enabled := true, rps := 5, cidr := [(1, 24)] }))) =
+      .default [(1, 24)] 5 ∧
+    backendAccess (some { enabled := false, cfg := ⟨[], [], [1], [], []⟩ }) = none ∧
+    backendAuth (some { dohOnly := true, pw := .unset }) = { enabled := true, dohOnly := true, pw := .allow } := by
+  decide
+
 /-- **filecache_auth_counterexample.** The reader of the pinned tree turned "authentication enabled,
 no DoH password" (which the backend converter produces) into a nil authenticator; the repaired
 reader returns the device unchanged. -/
@@ -524,11 +676,17 @@ end Agd.ProfileCache
 #print axioms Agd.ProfileDB.lookupHuman_ok_lookupKey
 #print axioms Agd.ProfileDB.no_ok_of_empty
 #print axioms Agd.ProfileDB.restart_equivalent
+#print axioms Agd.ProfileDB.backend_response_shape
+#print axioms Agd.ProfileDB.backend_response_wf
+#print axioms Agd.ProfileDB.store_failure_spec
+#print axioms Agd.ProfileDB.exStoreFailOps_wf
 #print axioms Agd.ProfileDB.request_time_no_gap
 #print axioms Agd.ProfileDB.lookups_track_backend
 #print axioms Agd.ProfileDB.version_mismatch_ignored
 #print axioms Agd.ProfileCache.filecache_roundtrip
 #print axioms Agd.ProfileCache.filecache_auth_counterexample
+#print axioms Agd.ProfileCache.backend_values_canon
+#print axioms Agd.ProfileCache.backend_cache_roundtrip
 #print axioms Agd.ProfileCache.load_decision_spec
 #print axioms Agd.ProfileCache.store_kill_old_or_new
 #print axioms Agd.Tie.TrC14.translation_complete
